@@ -114,6 +114,9 @@ def _case(draw):
         "lvl_frac": draw(st.sampled_from([0.0, 0.25, 0.5, 1.0])),
         "kx_exp": draw(st.sampled_from([0.0, 0.0, -0.5, -0.2, 0.2, 0.5])), "ky_off": draw(st.sampled_from([0.0, 0.0, 0.3, 1.0])),
     }
+    # horizontally isotropic diffusivity different from Kz, handed over as one array object for Kx and Ky
+    if draw(st.integers(0, 5)) == 0:
+        c["ay"], c["kx_exp"], c["ky_off"], c["same_kh"] = c["ax"], 0.0, 0.0, True
     c["xmax"] = float(f"{ztop * c['nx'] * draw(gen.logfl(0.5, 10.0)):.6g}")
     c["ymax"] = float(f"{ztop * c['ny'] * draw(gen.logfl(0.5, 10.0)):.6g}")
     c["q"] = draw(gen.source(c["ny"], c["nx"], kinds=("dense",)))
@@ -160,6 +163,8 @@ def check_case(c):
     dzc = np.diff(zc)
     delta = float(np.max(dzc / zc[:-1]))
     out.label("fam=" + c["fam"], "grid=" + gk, "delta<=1" if delta <= 1 else "delta>1", f"level={c['lvl_frac']}")
+    if c.get("same_kh"):
+        out.label("Kx-is-Ky-object")
     out.label("K-ratios-vary-with-height" if (c.get("kx_exp") or c.get("ky_off")) else "K-ratios-constant")
 
     # admitted modes on the coarse grid.  A component on the unpaired Nyquist column / row of an even grid is observed
@@ -221,6 +226,8 @@ def check_case(c):
         z = zgrid(gk, n, z0, ztop, zm)
         delta4 = float(np.max(np.diff(z) / z[:-1]))
         prof = tuple(f(z) for f in fn)
+        if c.get("same_kh"):
+            prof = (prof[0], prof[1], prof[2], prof[2], prof[4])
         lvl = int(round(c["lvl_frac"] * n))
         # the level is requested together with two others, in an order whose sorting permutation is a 3-cycle:
         # the slice examined must still be the one at the requested height (the "output heights" clause)
